@@ -16,7 +16,7 @@ import time
 import z3
 
 from .. import driver, signs
-from ..symrt import EngineError, UncutLoop, active, term
+from ..symrt import KFLOAT, EngineError, UncutLoop, active, term
 from .computil import GenericRun, compositions, field_rec, ge_rec, link, ranks_of, scale_of
 
 A_SUM = ("A-sum: for the for-every-team-size obligations the team aggregates are symbols theta_i = sum_k mu_k, s_i = sum_k sigma_k^2 with "
@@ -379,7 +379,7 @@ def rate_units(prop, model, n, vec, limit, use_t):
             if vals is not None:
                 rp[vec] = [enc_model(md, f"r{i}") for i in range(n)]
             if use_t:
-                rp["t"] = {"v": [1, 2], "k": "float"}
+                rp["t"] = enc_model(md, "t", KFLOAT) if "t" in md else {"v": [1, 2], "k": "float"}
         recs.append(field_rec(f"C01/{model}/rate/any-team-size/mu{tag}", okm, "field", "; ".join(notes)[:300], dt / 2, fn, shape, rp))
         recs.append(field_rec(f"C01/{model}/rate/any-team-size/sigma{tag}", oks, "field", "; ".join(notes)[:300], dt / 2, fn, shape, rp))
     try:
